@@ -206,6 +206,7 @@ func runC10(c *Ctx) {
 	c10R10(c)
 	c10R11(c)
 	c10R12(c)
+	c10R13(c)
 	c07R4As(c, c.R.Rule("R9", "K3 (= C07.R4) the DLQ's fatal causes: in both engines a nack the window refuses is a fatal error when the DLQ is enabled, and a v2 DLQ write failure — a failed call or a negative per-record ack — is fatal", 6))
 }
 
@@ -1114,6 +1115,7 @@ func runC11(c *Ctx) {
 	c11R13(c)
 	c11R14(c)
 	c11R15(c)
+	c11R16(c)
 	c10R1As(c, c.R.Rule("R12", "K3 (= C10.R1) the stored status agrees with how the run ended: in the cleanup goroutine of both engines Degraded is written only for a fatal error or a failed recovery, and a stopped status only where the run's error is known not to be fatal", 14))
 	r11 := c.R.Rule("R11", "K5 frozen guarded-by table: pipeline.Instance.status is read and written only under statusLock (the status Start/Stop decide on is never a torn or stale read)", 2)
 	c.guardTable(r11, guardEntry{Rel: pPipe, Struct: "Instance", Mutex: "statusLock", Fields: []string{"status"}, Min: 2})
@@ -2199,4 +2201,140 @@ func c10R12(c *Ctx) {
 			c.R.Check(rechecked, r, t.eng+" StartWithBackoff: a stop accepted during the restart build is applied to the new run", c.Pos(call.Pos()), "markers re-read behind Start[ok]", "StartWithBackoff checks the stop markers only BEFORE the nested Start; while Start builds the new run (fetching the pipeline, building nodes / opening sink and workers, dispensing plugins) the published entry is still the dead run and the status Recovering, so Stop(force) / StopAll mark the dead run and return nil — the restart then goes live: a pipeline the user (or the shutdown) just stopped is Running again, and at shutdown Wait returns while it runs", true)
 		}
 	}
+}
+
+const pConduit = "pkg/conduit"
+
+// c10R13: F79/F80. Process shutdown (pkg/conduit Runtime). (a) Whatever made the runtime's tomb die, the pipelines are
+// stopped with a reason that IS pipeline.ErrGracefulShutdown (or wraps it): any other reason is returned by the source
+// nodes as a transient node error, and the v1 cleanup goroutine "recovers" — restarts — the pipeline in the middle of the
+// shutdown, after Wait joined the old run; the DB is then closed under a running pipeline. (b) The cleanup goroutine
+// waits for initServices to return before it stops "all" pipelines and closes the DB: a signal during start-up would
+// otherwise stop nothing, close the store, and let start-up go on to start pipelines on a closed store.
+func c10R13(c *Ctx) {
+	r := c.R.Rule("R13", "K6/K3 shutdown stops what was started and does not restart it: in Runtime.registerCleanupV1/V2 every StopAll reason is (or wraps) pipeline.ErrGracefulShutdown, and StopAll lies behind a receive from the init-done channel that Runtime.Run closes when initServices returns", 5)
+	gs := c.W.LookupObj(pPipe, "ErrGracefulShutdown")
+	run := c.SSA(r, pConduit, "(*Runtime).Run")
+	initS := c.Fn(r, pConduit, "(*Runtime).initServices")
+	if gs == nil || run == nil || initS == nil {
+		c.R.Unresolved(r, "pipeline.ErrGracefulShutdown / Runtime.Run / initServices")
+		return
+	}
+	isGS := func(v ssa.Value) bool {
+		return isGlobalLoad(v, gs) || kit.DerivesFrom(v, func(x ssa.Value) bool { return isGlobalLoad(x, gs) })
+	}
+	for _, t := range []struct{ name, rel string }{{"(*Runtime).registerCleanupV1", pLife}, {"(*Runtime).registerCleanupV2", pLife2}} {
+		fn := c.SSA(r, pConduit, t.name)
+		stopAll := c.Fn(r, t.rel, "(*Service).StopAll")
+		if fn == nil || stopAll == nil {
+			continue
+		}
+		var chanParam ssa.Value
+		for _, prm := range fn.Params {
+			if _, ok := prm.Type().Underlying().(*types.Chan); ok {
+				chanParam = prm
+			}
+		}
+		n := 0
+		for _, lit := range kit.WithAnon(fn) {
+			for _, call := range kit.CallsTo(lit, Set(stopAll)) {
+				n++
+				a := call.Common().Args
+				reason := a[len(a)-1]
+				ok := isGS(reason)
+				if cl, isCall := reason.(*ssa.Call); isCall && !ok {
+					for _, arg := range cl.Call.Args {
+						if isGS(arg) {
+							ok = true
+						}
+					}
+				}
+				if reason.Type().String() != "error" {
+					ok = true // the arch-v2 StopAll takes no reason (it always is a system stop)
+				}
+				if lit.Parent() != fn {
+					continue // a goroutine spawned by the cleanup closure itself runs behind its checks
+				}
+				c.R.Check(ok, r, t.name+": pipelines are stopped with (a wrapper of) ErrGracefulShutdown", c.Pos(call.Pos()), "ErrGracefulShutdown", "the shutdown path calls StopAll with a reason that does not wrap pipeline.ErrGracefulShutdown: the source nodes return that reason as a plain node error, the v1 cleanup goroutine treats it as a transient failure and RESTARTS the pipeline during the shutdown — Wait only joined the old run, the DB is closed while the restarted run is live (or Persister.Wait never returns)", true)
+				// behind a receive from the init-done channel
+				g := kit.NewGates()
+				if chanParam != nil {
+					for _, b := range lit.Blocks {
+						for _, in := range b.Instrs {
+							if u, isU := in.(*ssa.UnOp); isU && u.Op == token.ARROW && (u.X == chanParam || capturedIs(u.X, chanParam) || kit.IsVar(u.X, chanParam)) {
+								g.AddInstr(u, "<-initDone")
+							}
+						}
+					}
+				}
+				c.Dominated(r, t.name+": pipelines are stopped only after start-up finished", []ssa.Instruction{call}, g, "<-initDone (a channel parameter)")
+			}
+		}
+		c.R.Check(n >= 1, r, t.name+": StopAll call", c.Pos(fn.Pos()), "found", "no StopAll call found", true)
+	}
+	// Run closes the channel it hands to registerCleanup when initServices returns
+	okClose := false
+	for _, lit := range kit.WithAnon(run) {
+		if len(kit.CallsTo(lit, Set(initS))) == 0 {
+			continue
+		}
+		for _, b := range lit.Blocks {
+			for _, in := range b.Instrs {
+				var args []ssa.Value
+				var val ssa.Value
+				switch x := in.(type) {
+				case *ssa.Defer:
+					val, args = x.Call.Value, x.Call.Args
+				case *ssa.Call:
+					val, args = x.Call.Value, x.Call.Args
+				}
+				if bi, ok := val.(*ssa.Builtin); ok && bi.Name() == "close" && len(args) == 1 {
+					if _, isCh := args[0].Type().Underlying().(*types.Chan); isCh {
+						okClose = true
+					}
+				}
+			}
+		}
+	}
+	c.R.Check(okClose, r, "Runtime.Run: the init-done channel is closed when initServices returns", c.Pos(run.Pos()), "close(initDone)", "Runtime.Run does not close a channel around initServices: the cleanup goroutine cannot know that start-up finished — a termination signal during start-up closes the store before the pipelines are started, start-up then continues and starts them on a closed store after the only StopAll there will ever be", true)
+}
+
+// c11R16: F78. "Once a run has ended its connectors and processors are released so the pipeline can be started again" —
+// also when the run never got going: a processor whose Open fails in the arch-v2 engine is torn down right there (its
+// plugin is dispensed and its instance marked running already; nobody closes a task that failed to open). The default
+// engine does that through ProcessorNode.Run's deferred Teardown.
+func c11R16(c *Ctx) {
+	r := c.R.Rule("R16", "K4 v2: a processor that fails to open is released: behind the failure edge of processor.Open in ProcessorTask.Open every exit has called processor.Teardown", 1)
+	fn := c.SSA(r, pFunnel, "(*ProcessorTask).Open")
+	if fn == nil {
+		return
+	}
+	var opens, tds []ssa.CallInstruction
+	for _, b := range fn.Blocks {
+		for _, in := range b.Instrs {
+			if ci, ok := in.(ssa.CallInstruction); ok && ci.Common().IsInvoke() && fieldNamed(ci.Common().Value, "processor") {
+				switch ci.Common().Method.Name() {
+				case "Open":
+					opens = append(opens, ci)
+				case "Teardown":
+					tds = append(tds, ci)
+				}
+			}
+		}
+	}
+	if len(opens) != 1 {
+		c.R.Fail(r, "ProcessorTask.Open: processor.Open", c.Pos(fn.Pos()), "expected exactly one processor.Open call")
+		return
+	}
+	g := kit.NewGates()
+	for _, t := range tds {
+		g.AddInstr(t, "processor.Teardown")
+	}
+	ok := !g.Empty()
+	for _, e := range kit.FailEdges(opens[0]) {
+		if pass, _ := kit.AllExitsFromEdge(e, false, kit.ExitSpec{Gates: g}); !pass {
+			ok = false
+		}
+	}
+	c.R.Check(ok, r, "ProcessorTask.Open: a failed Open tears the processor down", c.Pos(opens[0].Pos()), "Teardown on the failure edge", "ProcessorTask.Open returns the Open error without tearing the processor down: its plugin stays dispensed and its Instance.running flag stays true (Worker.Open's rollback only closes the tasks that opened BEFORE the failing one) — Update, Delete and the next start of the pipeline are refused with 'processor already running' until Conduit restarts", true)
 }
